@@ -1,7 +1,7 @@
 (* Prompt_Proofs.v — from validated emptiness certificates to statements about classify:
    every string of a prompt grammar is classified as exactly the expected levels. *)
 From Coq Require Import String.
-From Verif Require Import Bytes Regex RegexDeriv RegexDecide Regex_Proofs Prompt.
+From Verif Require Import Bytes Regex RegexDeriv RegexDecide Regex_Proofs RegexSearch RegexSearch_Proofs Prompt.
 
 Lemma d_Emp_dead pnl s : trun pnl (TBase Emp) s = false.
 Proof. revert pnl; induction s as [|c s IH]; intros pnl; cbn; [reflexivity|apply IH]. Qed.
@@ -53,10 +53,10 @@ Proof.
 Qed.
 
 Lemma accepts_relaxed CL atoms fuel Gs Rs s :
-  decide_empty CL atoms fuel (TAnd (weaken Gs) (TNot (t_all (map t_full Rs)))) = true ->
+  decide1 CL atoms fuel (TAnd (weaken Gs) (TNot (t_all (map t_full Rs)))) = true ->
   all_bytes s = true -> accepts (gtop Gs) s = true -> accepts (relaxed Gs Rs) s = true.
 Proof.
-  intros H Hs HG. pose proof (decide_empty_sound _ _ _ _ H s Hs) as E.
+  intros H Hs HG. pose proof (decide1_sound _ _ _ _ H s Hs) as E.
   rewrite accepts_and, accepts_not, (accepts_weaken _ _ HG) in E. cbn in E. apply Bool.negb_false_iff in E.
   unfold relaxed. rewrite accepts_all, forallb_app. rewrite accepts_all in E. rewrite E. cbn [andb].
   unfold gtop in HG. rewrite accepts_all in HG. rewrite forallb_forall in HG. apply forallb_forall.
@@ -67,19 +67,19 @@ Lemma empty_with_sound CL atoms fuel Gs Rs t s :
   empty_with CL atoms fuel Gs Rs t = true -> all_bytes s = true -> accepts (gtop Gs) s = true -> accepts t s = false.
 Proof.
   unfold empty_with. intros H Hs HG.
-  destruct (decide_empty CL atoms fuel (TAnd (weaken Gs) t)) eqn:H1.
-  - pose proof (decide_empty_sound _ _ _ _ H1 s Hs) as E. rewrite accepts_and in E.
+  destruct (decide1 CL atoms fuel (TAnd (weaken Gs) t)) eqn:H1.
+  - pose proof (decide1_sound _ _ _ _ H1 s Hs) as E. rewrite accepts_and in E.
     rewrite (accepts_weaken _ _ HG) in E. exact E.
   - destruct Rs as [|r0 Rs'].
-    + pose proof (decide_empty_sound _ _ _ _ H s Hs) as E. rewrite accepts_and in E.
+    + pose proof (decide1_sound _ _ _ _ H s Hs) as E. rewrite accepts_and in E.
       rewrite HG in E. exact E.
-    + destruct (decide_empty CL atoms fuel (TAnd (weaken Gs) (TNot (t_all (map t_full (r0 :: Rs')))))) eqn:H2.
-      * destruct (decide_empty CL atoms fuel (TAnd (relaxed Gs (r0 :: Rs')) t)) eqn:H3.
+    + destruct (decide1 CL atoms fuel (TAnd (weaken Gs) (TNot (t_all (map t_full (r0 :: Rs')))))) eqn:H2.
+      * destruct (decide1 CL atoms fuel (TAnd (relaxed Gs (r0 :: Rs')) t)) eqn:H3.
         -- pose proof (accepts_relaxed _ _ _ _ _ s H2 Hs HG) as HR.
-           pose proof (decide_empty_sound _ _ _ _ H3 s Hs) as E. rewrite accepts_and, HR in E. exact E.
-        -- pose proof (decide_empty_sound _ _ _ _ H s Hs) as E. rewrite accepts_and in E.
+           pose proof (decide1_sound _ _ _ _ H3 s Hs) as E. rewrite accepts_and, HR in E. exact E.
+        -- pose proof (decide1_sound _ _ _ _ H s Hs) as E. rewrite accepts_and in E.
            rewrite HG in E. exact E.
-      * pose proof (decide_empty_sound _ _ _ _ H s Hs) as E. rewrite accepts_and in E.
+      * pose proof (decide1_sound _ _ _ _ H s Hs) as E. rewrite accepts_and in E.
         rewrite HG in E. exact E.
 Qed.
 
